@@ -120,6 +120,7 @@ func cmdVerify(args []string) {
 	}
 	fmt.Printf("\ntotal %.1fs\n", time.Since(t0).Seconds())
 	if bad > 0 {
+		solv.Close()
 		os.Exit(1)
 	}
 }
